@@ -212,7 +212,7 @@ class Inquiry(SCSICommand):
 
     _ata_identify_gen_conf_bits = {
         "ata_device": [0x80, 1],
-        "respose_incomplete": [0x02, 0],
+        "respose_incomplete": [0x04, 0],
     }
 
     # HACK: we update the baseclass with enums for the subclass, if there is a better way
